@@ -309,6 +309,12 @@ func (c *Ctx) reachesSend(fn *ssa.Function) bool {
 					found = true
 				}
 			}
+			// a function value made here (a literal, or a method value) may be run by the callee it is handed to
+			if mc, ok := in.(*ssa.MakeClosure); ok {
+				if g := closureFn(mc); g != nil && c.InModule(g) && walk(g) {
+					found = true
+				}
+			}
 		})
 		return found
 	}
